@@ -16,7 +16,12 @@ USES_GEN = True
 def parts(tier, rng):
     n3 = cc.sized(tier, 40, 400)
     n5 = cc.sized(tier, 30, 300)
+    pairs = G5.enc5_shorten_pairs(rng, max(n5 // 10, 2))
+    sh = cc.ShortenPart("v5-shortening-pairs", "enc5", [c for pr in pairs for c in pr], has_oracle=False,
+                        rule="limited kinds with / without diagnostics under the same peer maximum 1..80")
+    sh.pairs = pairs
     return [
+        sh,
         cc.Enc5Part("v5-encoder", "enc5", G5.suite_enc5(rng, n5), has_oracle=False, release_too=True,
                     rule="limits 1..64 + sampled, npi on/off, publish + chunk ops, invalid values"),
         cc.EncPart("v3-encoder", "enc3", G3.gen_enc(rng, n3), has_oracle=False, release_too=True,
